@@ -66,6 +66,15 @@ Ltac crush :=
   | |- context[let '(_, _) := ?x in _] => destruct x eqn:?
   | |- context[match ?x with _ => _ end] => destruct x eqn:?
   end.
+(* innermost first *)
+Ltac crushi :=
+  repeat match goal with
+  | |- context[match ?x with _ => _ end] =>
+      lazymatch x with
+      | context[match _ with _ => _ end] => fail
+      | _ => destruct x eqn:?
+      end
+  end.
 Lemma incl_filter : forall A (p : A -> bool) l, incl (filter p l) l.
 Proof. intros A p l x Hx. apply filter_In in Hx. apply Hx. Qed.
 
@@ -488,3 +497,97 @@ Section ReachedReads.
     rewrite E. auto.
   Qed.
 End ReachedReads.
+
+(* ================================================================== *)
+(* closed tables hold nothing                                           *)
+Record CI (s : st) : Prop := mkCI {
+  ci_rq : rd_stop (R s) = true -> rq (R s) = [] /\ rq_stop (R s) = true;
+  ci_c : x_open (C s) = false -> x_pend (C s) = None;
+  ci_s : x_open (S s) = false -> x_pend (S s) = None;
+  ci_l : lq_stop s = true -> lq_pend s = None;
+  ci_cps : cps s <> 0 }.
+
+Lemma read_outcome_open : forall s to, read_outcome s to = 0 -> rq_stop (R s) = false.
+Proof.
+  intros s to. unfold read_outcome. destruct (to =? 0); [discriminate|].
+  destruct (rq_size (R s) <=? _); destruct (rq_stop (R s)); intros X; try discriminate X; reflexivity.
+Qed.
+
+Lemma step0_CI : forall s o, CI s -> CI (step0 s o).
+Proof.
+  intros s o [C1 C2 C3 C4 C5].
+  assert (Hfin : forall s', (rd_stop (R s') = true -> rd_stop (R s) = true /\ rq (R s') = rq (R s) /\ rq_stop (R s') = rq_stop (R s)) ->
+     C s' = C s -> S s' = S s -> lq_pend s' = lq_pend s -> lq_stop s' = lq_stop s -> cps s' = cps s -> CI s').
+  { intros s' A B D E F G. constructor; rewrite ?B, ?D, ?E, ?F, ?G; auto.
+    intros X. destruct (A X) as (X1 & X2 & X3). rewrite X2, X3. apply C1. exact X1. }
+  destruct o; cbn [step0];
+    try (unfold gc_at, reads_applied, reads_gc, x_match, x_gc, x_close; crushi;
+         first [ apply Hfin; cbn; auto; try (intros; congruence); fail
+               | constructor; cbn; auto;
+                 try (intros X; first [apply C2 in X | apply C3 in X | apply C4 in X | destruct (C1 X)]; auto; congruence);
+                 try (intros; congruence); fail ]).
+  - (* Read *)
+    destruct (to =? 0); [constructor; auto|].
+    destruct (get_obj pick false (h_nreq (H s)) 0 0 0 (add64 (h_clock (H s)) to) (H s)) as [h1 ob].
+    destruct (read_outcome s to =? 0) eqn:Eo; constructor; cbn; auto.
+    apply N.eqb_eq in Eo. apply read_outcome_open in Eo. intros Hst. destruct (C1 Hst) as [_ X]. congruence.
+  - (* ReqCC *)
+    unfold x_request. destruct (x_outcome (C s) to =? 0); [|constructor; cbn; auto].
+    unfold new_obj. constructor; cbn; auto. discriminate.
+  - (* ReqSS *)
+    unfold x_request. destruct (x_outcome (S s) to =? 0); [|constructor; cbn; auto].
+    unfold new_obj. constructor; cbn; auto. discriminate.
+  - (* ReqLQ *)
+    unfold lq_outcome. cbn [logquery_add_refuses_when_stopped andb].
+    destruct (lq_stop s) eqn:El; cbn; [constructor; auto|].
+    destruct (lq_pend s) eqn:Ep; cbn; [constructor; auto; intros; congruence|].
+    unfold new_obj. constructor; cbn; auto; intros; congruence.
+Qed.
+
+Lemma step_CI : forall s o, CI s -> CI (step s o).
+Proof.
+  intros s o Ci. unfold step. destruct (negb _); [exact Ci|].
+  destruct (h_err (H (step0 s o)) =? 0); [apply step0_CI; exact Ci|].
+  destruct Ci. constructor; cbn; auto.
+Qed.
+Lemma run_CI : forall ops s, CI s -> CI (run ops s).
+Proof. induction ops as [|o ops IH]; intros s Ci; [exact Ci|]. cbn. apply IH. apply step_CI. exact Ci. Qed.
+Lemma init_CI : forall ps nc a b, CI (init ps nc a b).
+Proof.
+  intros. constructor; cbn; try discriminate. destruct (ps =? 0) eqn:E; [discriminate|]. apply N.eqb_neq. exact E.
+Qed.
+
+(* node.close() has completed on every table *)
+Definition closed (s : st) : Prop :=
+  rd_stop (R s) = true /\ (forall k, k < cps s -> p_stop (P s) k = true) /\
+  x_open (C s) = false /\ x_open (S s) = false /\ lq_stop s = true.
+
+Lemma filter_none : forall A (p : A -> bool) l, (forall x, In x l -> p x = false) -> filter p l = [].
+Proof.
+  intros A p l. induction l as [|a l IH]; intros Hp; [reflexivity|]. cbn. rewrite (Hp a (or_introl eq_refl)).
+  apply IH. intros x Hx. apply Hp. right. exact Hx.
+Qed.
+
+Lemma closed_live : forall s, CI s -> closed s -> live s = taken (R s).
+Proof.
+  intros s Ci (C1 & C2 & C3 & C4 & C5). unfold live, live_pend, live_reads.
+  rewrite (filter_none _ (alive s)).
+  - destruct (ci_rq s Ci C1) as [E _]. rewrite E, C1, (ci_c s Ci C3), (ci_s s Ci C4), (ci_l s Ci C5). cbn.
+    rewrite !app_nil_r. reflexivity.
+  - intros kv _. unfold alive. rewrite C2; [reflexivity|]. apply N.mod_lt. apply Ci.
+Qed.
+
+(* (3) + exactly one, after close: in every reachable state in which close() has completed on every
+   table and the step worker holds no read requests between get() and add(), every accepted request
+   has exactly one terminal result *)
+Lemma exactly_one_when_closed_proved : forall ps nc a b ops, env_ok ops (init ps nc a b) ->
+  let s := run ops (init ps nc a b) in
+  closed s -> taken (R s) = [] ->
+  forall r, r < h_nreq (H s) -> r_status (h_reqs (H s) r) = 1 -> nterm (got s r) = 1%nat.
+Proof.
+  intros ps nc a b ops He s Hc Ht r Hr Hs.
+  pose proof (at_most_one_terminal_proved ps nc a b ops He r) as Hle. fold s in Hle.
+  destruct (nterm (got s r)) as [|[|n]] eqn:En; [|reflexivity|lia].
+  exfalso. pose proof (accepted_without_result_is_referenced_proved ps nc a b ops He r Hr Hs En) as Hin.
+  fold s in Hin. rewrite (closed_live s (run_CI ops _ (init_CI ps nc a b)) Hc), Ht in Hin. destruct Hin.
+Qed.
